@@ -41,3 +41,24 @@ def solver_configs(rng, gas):
         cfg.update(tol_p=1e-10, tol_m=1e-10, tol_res=1e-9)
     cfg["iter"] = 400
     return cfg
+
+
+def run_thermal(net, mode, opts):
+    """sequential / bidirectional directly; 'heat' = hydraulics run, then a heat-only run fed with the
+    stored hydraulic solution (hydraulic result columns are then taken over from the first run)."""
+    import numpy as np
+    if mode != "heat":
+        return run_pipeflow(net, dict(opts, mode=mode))
+    out, exc = run_pipeflow(net, dict(opts, mode="hydraulics"))
+    if out != "ok":
+        return out, exc
+    from pandapipes.idx_node import PINIT
+    from pandapipes.idx_branch import MDOTINIT
+    sol = np.concatenate((net._pit["node"][:, PINIT], net._pit["branch"][:, MDOTINIT]))
+    hyd = {k: net[k].copy() for k in list(net.keys()) if isinstance(k, str) and k.startswith("res_")}
+    out, exc = run_pipeflow(net, dict(opts, mode="heat", sol_vec=sol))
+    if out == "ok":
+        for k, df in hyd.items():
+            if k in net and len(df):
+                net[k] = net[k].combine_first(df)[list(net[k].columns)]
+    return out, exc
